@@ -71,7 +71,79 @@ class ResInterp(FlowInterp):
             d = dotted(k.value)
             if k.arg and d is not None:
                 amap[k.arg] = self.tr(d, env)
-        return {"amap": amap}
+        # literal sequences handed to the helper (directly or through a local defined once): their elements in the caller's names
+        lits = {}
+        for p, a in list(zip(params, call.args)) + [(k.arg, k.value) for k in call.keywords if k.arg]:
+            seq = self._literal_seq(a, env)
+            if seq is not None:
+                lits[p] = seq
+        return {"amap": amap, "lits": lits}
+
+    def _literal_seq(self, e, env):
+        """elements of a literal tuple/list (given directly, through a local assigned once, or through a parameter bound to
+        one), each translated to the outermost activation's names: [name | [names] | None]"""
+        if isinstance(e, ast.Name):
+            if e.id in (env.get("lits") or {}):
+                return env["lits"][e.id]
+            defs = [n for n in ast.walk(env["fi"].node) if isinstance(n, ast.Assign) and any(isinstance(t, ast.Name) and t.id == e.id for t in n.targets)]
+            if len(defs) != 1:
+                return None
+            e = defs[0].value
+        if not isinstance(e, (ast.Tuple, ast.List)):
+            return None
+        out = []
+        for x in e.elts:
+            if isinstance(x, (ast.Tuple, ast.List)):
+                out.append([self.tr(dotted(y), env) if dotted(y) else None for y in x.elts])
+            else:
+                out.append(self.tr(dotted(x), env) if dotted(x) else None)
+        return out
+
+    def for_loop(self, s, states, env):
+        """a loop over a literal sequence of names is unrolled: in each round the loop variables denote the element's names"""
+        seq = self._literal_seq(self._unwrap_iter(s.iter), env) if not isinstance(self._unwrap_iter(s.iter), ast.Call) else None
+        tnames = [t.id if isinstance(t, ast.Name) else None for t in s.target.elts] if isinstance(s.target, (ast.Tuple, ast.List)) else (
+            [s.target.id] if isinstance(s.target, ast.Name) else None)
+        if seq is None or tnames is None or None in tnames or s.iter is not self._unwrap_iter(s.iter):
+            return super().for_loop(s, states, env)
+        rounds = []
+        for el in seq:
+            el = el if isinstance(el, list) else [el]
+            if len(el) != len(tnames) or any(x is None for x in el):
+                return super().for_loop(s, states, env)
+            rounds.append(dict(zip(tnames, el)))
+        saved_amap = env.get("amap")
+        exits = frozenset()
+        for binding in rounds:
+            env["amap"] = dict(saved_amap or {}, **binding)
+            saved = (env["brk"], env["cont"])
+            env["brk"], env["cont"] = set(), set()
+            try:
+                states = self.block(s.body, states, env) | frozenset(env["cont"])
+                exits = exits | frozenset(env["brk"])
+            finally:
+                env["brk"], env["cont"] = saved
+        env["amap"] = saved_amap
+        if s.orelse:
+            states = self.block(s.orelse, states, env)
+        return states | exits
+
+    def _opens(self, v, env, depth=0):
+        """the call opens a file: builtin open(), or a package helper all of whose results are such calls"""
+        if not isinstance(v, ast.Call):
+            return False
+        if call_name(v) == "open":
+            return True
+        if depth > 2:
+            return False
+        ts = resolve_call(self.prog, env["fi"], env["self_cls"], v)
+        if not ts:
+            return False
+        for f, _k in ts:
+            rets = [n for n in ast.walk(f.node) if isinstance(n, ast.Return)]
+            if not rets or not all(r.value is not None and self._opens(r.value, dict(env, fi=f, self_cls=f.cls), depth + 1) for r in rets):
+                return False
+        return True
 
     # -- condition evaluation
     def _oracle(self, st, env):
@@ -80,7 +152,7 @@ class ResInterp(FlowInterp):
             name = None
             if x[0] == "self":
                 name = self.tr("self." + x[1], env)
-            elif x[0] == "param":
+            elif x[0] in ("param", "name", "unbound"):
                 name = self.tr(x[1], env)
             elif x[0] == "const":
                 return "none" if x[1] is None else "notnone"
@@ -157,7 +229,7 @@ class ResInterp(FlowInterp):
                     if isinstance(v, ast.Constant) and v.value is None:
                         st = sput(st, "null", tn, "none")
                         st = frozenset(x for x in st if not (x[0] == "origin" and x[1] == tn))
-                    elif isinstance(v, ast.Call) and call_name(v) == "open":
+                    elif self._opens(v, env):
                         st = sput(st, "null", tn, "notnone")
                         st = sput(st, "origin", tn, "open")
                     elif tn in self.handles and isinstance(v, ast.Name) and sget(st, "origin", self.tr(v.id, env)) == "open":
@@ -190,7 +262,7 @@ class ResInterp(FlowInterp):
                         hs = self._handles_of(v, st, env)
                     if hs:
                         st = sput(st, "alias", tn, frozenset(hs))
-                    if isinstance(v, ast.Call) and call_name(v) == "open":
+                    if self._opens(v, env):
                         st = sput(st, "origin", tn, "open")
                     if isinstance(v, ast.Constant) and isinstance(v.value, bool):
                         st = sput(st, "bool", tn, v.value)
